@@ -499,7 +499,6 @@ class DiscriminatedUnionUnpackerBuilder(AbstractUnpackerBuilder):
                 spec.builder.ensure_object_imported(spec.builder.__class__)
                 lines.append(
                     "CodeBuilder(variant, "
-                    "dialect=_dialect, "
                     f"format_name={repr(spec.builder.format_name)}, "
                     "default_dialect=_default_dialect)"
                     ".add_unpack_method()"
@@ -716,11 +715,11 @@ def unpack_dataclass(spec: ValueSpec) -> Optional[Expression]:
                 decoder=spec.builder.decoder,
             )
             != method_name
+            or spec.builder.dialect is not None
         ):
             builder = spec.builder.__class__(
                 spec.origin_type,
                 type_args,
-                dialect=spec.builder.dialect,
                 format_name=spec.builder.format_name,
                 default_dialect=spec.builder.default_dialect,
                 attrs=method_loc,
